@@ -233,7 +233,7 @@ package netpoll
 //@     && m.own == old(m.own) && m.ord == old(m.ord) && m.sp == old(m.sp) && m.kids == old(m.kids)
 // pool blocks that existed before and are not touched by this operation keep their state and holder
 //@ pred samepool() = forall a int :: a > 0 && wasalloc(a) ==> pool[a] == old(pool[a]) && blknode[a] == old(blknode[a]) && cacheown[a] == old(cacheown[a]) && cacheidx[a] == old(cacheidx[a])
-//@ pred others(b *UnsafeLinkBuffer) = forall m *linkBufferNode ::
+//@ pred others(b *UnsafeLinkBuffer) = forall m *linkBufferNode {m.own} ::
 //@     (wasalloc(m) && old(m.own) != b ==> samenode(m)) && (m != nil && m.own != old(m.own) ==> m.own == b || m.own == nil)
 
 // attach a fresh node v behind w (= b.write): the spare nodes that followed w are dropped from the chain
@@ -396,17 +396,22 @@ package netpoll
 
 //@ func (*UnsafeLinkBuffer).Release
 //@   property C01 C02 C03
-//@   requires wf(b)
-//@   ensures wf(b)
-//@   ensures err == nil && wf(b) && others(b) && b.length == old(b.length) && rpos(b) == old(rpos(b)) && fpos(b) == old(fpos(b)) && b.mallocSize == old(b.mallocSize)
-//@   ensures b.head == b.read && len(b.caches) == 0 && b.cachePeek == nil
+//@   requires wfs(b)
+//@   ensures err == nil && wfs(b) && others(b) && b.length == old(b.length) && rpos(b) == old(rpos(b)) && fpos(b) == old(fpos(b)) && b.mallocSize == old(b.mallocSize)
+//@   ensures b.head == b.read && len(b.caches) == 0 && b.cachePeek == nil && (forall m *linkBufferNode :: inb(b, m) ==> old(m.own) == b)
+//@   ensures forall a int :: a > 0 && wasalloc(a) ==> blknode[a] == old(blknode[a]) && cacheown[a] == old(cacheown[a]) && cacheidx[a] == old(cacheidx[a])
+//@   ensures forall a int :: pool[a] != old(pool[a]) ==> (old(blknode[a]) != nil && old(blknode[a].own) == b) || old(cacheown[a]) == b || a == old(b.cachePeek#arr)
 //@   modifies b.read, b.head, b.caches, b.cachePeek, linkBufferNode.refer, linkBufferNode.buf, linkBufferNode.origin, linkBufferNode.next, linkBufferNode.own, pool, mem:[]byte
 //@   ghost after call (*linkBufferNode).Release#1: node.own = nil
 //@   loop 1 invariant inb(b, b.read) && b.read.ord >= old(b.read.ord) && b.read.ord <= b.flush.ord && rpos(b) == old(rpos(b))
-//@   loop 2 invariant wfs(b) && others(b) && b.length == old(b.length) && rpos(b) == old(rpos(b)) && fpos(b) == old(fpos(b)) && mpos(b) == old(mpos(b))
+//@   loop 2 invariant wfs(b) && others(b) && rpos(b) == old(rpos(b)) && fpos(b) == old(fpos(b)) && mpos(b) == old(mpos(b))
 //@   loop 2 invariant forall a int :: a > 0 && wasalloc(a) ==> blknode[a] == old(blknode[a]) && cacheown[a] == old(cacheown[a]) && cacheidx[a] == old(cacheidx[a])
+//@   loop 2 invariant forall m *linkBufferNode :: inb(b, m) ==> old(m.own) == b
+//@   loop 2 invariant forall a int :: pool[a] != old(pool[a]) ==> (old(blknode[a]) != nil && old(blknode[a].own) == b) || old(cacheown[a]) == b || a == old(b.cachePeek#arr)
 //@   loop 3 invariant -1 <= rangeindex && wfmono(b) && wfhead(b) && wfcur(b) && wflin(b) && wfclosed(b) && wfuniq(b) && wfnode(b) && wfshape(b) && wfpos(b) && wfref(b) && wfpool(b) && wfpeek(b)
-//@   loop 3 invariant others(b) && b.head == b.read && b.length == old(b.length) && rpos(b) == old(rpos(b)) && fpos(b) == old(fpos(b)) && mpos(b) == old(mpos(b))
+//@   loop 3 invariant others(b) && b.head == b.read && rpos(b) == old(rpos(b)) && fpos(b) == old(fpos(b)) && mpos(b) == old(mpos(b))
+//@   loop 3 invariant forall a int :: pool[a] != old(pool[a]) ==> (old(blknode[a]) != nil && old(blknode[a].own) == b) || old(cacheown[a]) == b || a == old(b.cachePeek#arr)
+//@   loop 3 invariant forall a int :: a > 0 && wasalloc(a) ==> blknode[a] == old(blknode[a]) && cacheown[a] == old(cacheown[a]) && cacheidx[a] == old(cacheidx[a])
 //@   loop 3 invariant len(b.caches) >= 0 && (b.caches != nil ==> allocated(b.caches)) && (b.cachePeek != nil ==> cacheown[b.cachePeek#arr] == nil)
 //@   loop 3 invariant forall i int {b.caches[i]#arr}{b.caches[i]#base}{b.caches[i]#cap} :: rangeindex < i && i < len(b.caches) ==> cacheok(b, i)
 
@@ -481,3 +486,23 @@ package netpoll
 //@   ensures len(result) == b.length && (fresh(result) || (result#arr == b.read.buf#arr && result#base == b.read.buf#base + b.read.off && b.read == b.flush))
 //@   loop 1 invariant inb(b, node) && node.ord >= b.read.ord && node.ord <= b.flush.ord && n == node.sp + node.off - rpos(b) && n >= 0
 //@   loop 1 invariant len(p) == b.length && fresh(p)
+
+// a closed buffer: every reader/writer entry point is still safe on it (it fails the length check first)
+//@ pred closedbuf(b *UnsafeLinkBuffer) = b != nil && b.head == nil && b.read == nil && b.flush == nil && b.write == nil && b.length == 0 && b.mallocSize == 0
+//@     && len(b.caches) == 0 && b.cachePeek == nil
+
+//@ func (*UnsafeLinkBuffer).Close
+//@   property C03 C12
+//@   requires wfs(b)
+//@   ensures err == nil && closedbuf(b) && others(b)
+//@   ensures forall a int :: pool[a] != old(pool[a]) ==> (old(blknode[a]) != nil && old(blknode[a].own) == b) || old(cacheown[a]) == b || a == old(b.cachePeek#arr)
+//@   ensures forall a int :: a > 0 && wasalloc(a) ==> blknode[a] == old(blknode[a]) && cacheown[a] == old(cacheown[a]) && cacheidx[a] == old(cacheidx[a])
+//@   modifies b.length, b.mallocSize, b.read, b.head, b.flush, b.write, b.caches, b.cachePeek, linkBufferNode.refer, linkBufferNode.buf, linkBufferNode.origin, linkBufferNode.next, linkBufferNode.own, pool, mem:[]byte
+//@   ghost after call (*linkBufferNode).Release#1: nd.own = nil
+//@   loop 1 invariant wflin(b) && wfclosed(b) && wfuniq(b) && wfnode(b) && wfpool(b) && others(b) && len(b.caches) == 0 && b.cachePeek == nil
+//@   loop 1 invariant forall m *linkBufferNode :: inb(b, m) ==> m.origin == nil && m.refer >= 1
+//@   loop 1 invariant node == nil ==> (forall m *linkBufferNode :: !inb(b, m))
+//@   loop 1 invariant node != nil ==> inb(b, node) && (forall m *linkBufferNode :: inb(b, m) ==> m.ord >= node.ord)
+//@   loop 1 invariant forall a int :: a > 0 && wasalloc(a) ==> blknode[a] == old(blknode[a]) && cacheown[a] == old(cacheown[a]) && cacheidx[a] == old(cacheidx[a])
+//@   loop 1 invariant forall m *linkBufferNode :: inb(b, m) ==> old(m.own) == b
+//@   loop 1 invariant forall a int :: pool[a] != old(pool[a]) ==> (old(blknode[a]) != nil && old(blknode[a].own) == b) || old(cacheown[a]) == b || a == old(b.cachePeek#arr)
